@@ -111,7 +111,7 @@ def graph_specs(ctx) -> list[dict]:
     specs: list[dict] = [{"family": "diamond"}]
     specs += [{"family": "ladder", "depth": d} for d in depths]
     specs += [{"family": "every_edge", "dedup": True}, {"family": "all_kinds", "dedup": True}]
-    nrand = 60 if ctx.thorough else 16
+    nrand = 200 if ctx.thorough else 16
     specs += [{"family": "random", "seed": ctx.seed * 1000 + i, "size": 30, "dedup": True}
               for i in range(nrand)]
     # with structurally equal duplicates
@@ -120,6 +120,20 @@ def graph_specs(ctx) -> list[dict]:
     specs += [{"family": "random", "seed": ctx.seed * 1000 + 500 + i, "size": 30, "rdup": True}
               for i in range(nrand)]
     return specs
+
+
+def untag_ladder(depth: int):
+    """a ladder whose two rung nodes differ ONLY by a tag: dropping the tag makes them equal"""
+    import pytato as pt
+    import numpy as np
+    from ..gen.kinds import VBarTag
+    x = pt.make_placeholder("x", (4, 4), np.float64)
+    a, b = x, x + 1
+    for _ in range(depth):
+        na = (a + b).tagged(VBarTag())
+        nb = a + b
+        a, b = na, nb
+    return pt.make_dict_of_named_arrays({"a": a, "b": b})
 
 
 def has_duplicates(v: heapser.HeapView) -> bool:
@@ -306,8 +320,8 @@ def check_traversals(ctx, t: ch.Tables):
         dist[spec["family"] + ("+dup" if dups else "")] = dist.get(spec["family"] + ("+dup" if dups else ""), 0) + 1
         kinds_present = {v.kind(i) for i in range(len(v.nodes))}
         for e in entries:
-            if e.name in timed_out:
-                continue
+            if ch.mapper_alias(t).get(e.name, e.name) in timed_out:
+                continue      # the class already ran out of time: every wrapper of it would too
             if not e.cached and spec["family"] in ("ladder", "random", "every_edge", "all_kinds") \
                     and spec.get("depth", 99) > 12:
                 continue      # WalkMapper is documented to re-walk shared nodes: small graphs only
@@ -317,7 +331,7 @@ def check_traversals(ctx, t: ch.Tables):
             alias = ch.mapper_alias(t).get(e.name, e.name)
             if err == "TIMEOUT":
                 n_dis += 1
-                timed_out.add(e.name)
+                timed_out.add(alias)
                 ctx.violation(f"mapper-retraverses:{alias}",
                               f"{e.name} did not finish a graph of {len(v.nodes)} nodes ({spec}) within "
                               f"{TRAVERSAL_LIMIT_S:.0f} s: {len(log.pairs)} rec calls so far — shared nodes are "
@@ -518,6 +532,34 @@ def check_transforms(ctx, t: ch.Tables):
             pending.append(("map_and_copy:tag", spec, v, res is graph, len(rv.nodes), created,
                             has_duplicates(rv), len(queries)))
             queries.append(f"(mapper transform {v.sexp()} {v.root} {heapser.excl(excl)} (tag IndexLambda VBarTag))")
+    # a transformation that makes UNEQUAL inputs EQUAL (drops a tag): equal results must be one and
+    # the same (first-seen) object — `TransformMapperCache.add`
+    for depth in ((3, 8) if not ctx.thorough else (3, 8, 20, 40)):
+        spec = {"family": "untag_ladder", "depth": depth}
+        graph = untag_ladder(depth)
+        v = heapser.view(graph)
+        in_ids = set(v.index)
+
+        def drop_tag(expr):
+            if isinstance(expr, pt.Array) and expr.tags_of_type(VBarTag):
+                return expr.without_tags(VBarTag())
+            return expr
+        try:
+            with time_limit(TRAVERSAL_LIMIT_S):
+                res = ptf.map_and_copy(graph, drop_tag)
+        except Exception as ex:   # noqa: BLE001
+            dis += 1
+            ctx.violation(f"mapper-raises:CachedMapAndCopyMapper:{type(ex).__name__}",
+                          f"map_and_copy(drop a tag) raised {type(ex).__name__}: {str(ex)[:200]} on {spec}",
+                          {"check": "transform-untag", "graph": spec})
+            continue
+        n += 1
+        rv = heapser.view(res)
+        created = sum(1 for i in rv.index if i not in in_ids)
+        excl = ch.exclusions_for(t, "CachedMapAndCopyMapper")
+        pending.append(("map_and_copy:untag", spec, v, res is graph, len(rv.nodes), created,
+                        bool(duplicates_within_namespace(rv)), len(queries)))
+        queries.append(f"(mapper transform {v.sexp()} {v.root} {heapser.excl(excl)} (untag VBarTag))")
     answers = common.driver_query_parallel(queries)
     for name, spec, v, same, rnodes, created, rdups, qi in pending:
         a = answers[qi]
@@ -528,9 +570,9 @@ def check_transforms(ctx, t: ch.Tables):
         m_size, m_root, m_nodes, m_reused = int(parts[0]), parts[1], int(parts[2]), int(parts[3])
         m_created = m_size - len(v.nodes)
         m_same = m_root == str(v.root)
-        alias = ch.mapper_alias(t).get(name, name)
+        alias = "CachedMapAndCopyMapper" if name.startswith("map_and_copy:") else ch.mapper_alias(t).get(name, name)
         problems = []
-        if same != m_same:
+        if same != m_same and not duplicates_cross_namespace(v):
             problems.append(f"result is argument: real {same}, model {m_same}")
         if rnodes != m_nodes and not duplicates_cross_namespace(v):
             # the model has one result cache; the code has one per namespace (function body): equal
@@ -543,6 +585,9 @@ def check_transforms(ctx, t: ch.Tables):
             problems.append(f"created nodes: real {created}, model {m_created}")
         if rnodes > len(v.nodes):
             problems.append(f"result has more distinct nodes ({rnodes}) than the input ({len(v.nodes)})")
+        if name == "map_and_copy:untag" and rdups:
+            problems.append("the result contains structurally equal distinct nodes: equal results of different "
+                            "inputs were not replaced by the first-seen instance")
         if name in ("Deduplicator", "fn:deduplicate") and rdups:
             problems.append("result of deduplicate still contains structurally equal distinct nodes "
                             "within one namespace")
@@ -553,7 +598,7 @@ def check_transforms(ctx, t: ch.Tables):
                               f"{name} on a duplicate-free graph ({spec}) did not return its argument itself: "
                               + "; ".join(problems),
                               {"check": "transform", "mapper": name, "graph": spec, "problems": problems})
-            elif rnodes > m_nodes or created > m_created:
+            elif rnodes > m_nodes or created > m_created or (name == "map_and_copy:untag" and rdups):
                 ctx.violation(f"transform-loses-sharing:{alias}",
                               f"{name} on {spec}: " + "; ".join(problems) + " — equal results are not mapped to one "
                               "and the same (first-seen) object",
@@ -640,7 +685,7 @@ def run(ctx: common.Ctx):
         "mappers": len(t.entries), "probe_kinds": len(t.kinds), "rows": len(t.rows),
         "refusals": len(t.unsupported), "edges": sum(len(v) for v in t.array_edges.values()),
         "scope_exclusions": t.skips, "documented_exclusions": [list(r) for r in t.doc_exclusions]}
-    ctx.lean_obligations("PtProofs.C13", THEOREMS, extra_targets=["PtGen"])
+    ctx.lean_obligations("PtProofs.C13", THEOREMS, extra_targets=["PtGen.Children", "PtGen.ChildrenWitness"])
     lean_ok = ctx.lean_obligations("PtProofs.C13Tables", TABLE_THEOREMS)
     check_tables(ctx, t, lean_ok)
     check_model_sanity(ctx)
